@@ -1582,8 +1582,11 @@ static void emit_data(Obj *prog) {
     else
       println("  .globl %s", var->name);
 
+    // The alignment was noted when the object was declared; its struct
+    // or union type may have been completed only afterwards.
+    int natural = MAX(var->align, var->ty->align);
     int align = (var->ty->kind == TY_ARRAY && var->ty->size >= 16)
-      ? MAX(16, var->align) : var->align;
+      ? MAX(16, natural) : natural;
 
     // Common symbol
     if (opt_fcommon && var->is_tentative && !var->is_tls) {
